@@ -358,11 +358,8 @@ func (b *Builder) buildTransitions(tableIdx int, closure []closureEntry) error {
 					if existing.targetNFA != next {
 						return ErrNotOnePass
 					}
-					// Merge source slots (multiple paths to same transition)
-					byteTransitions[class] = transInfo{
-						targetNFA: next,
-						slots:     existing.slots | entry.slots,
-					}
+					// Same target through a second path: the closure is in priority
+					// order, so the earlier path wins and keeps its own slots.
 				} else {
 					byteTransitions[class] = transInfo{
 						targetNFA: next,
@@ -381,10 +378,7 @@ func (b *Builder) buildTransitions(tableIdx int, closure []closureEntry) error {
 						if existing.targetNFA != trans.Next {
 							return ErrNotOnePass
 						}
-						byteTransitions[class] = transInfo{
-							targetNFA: trans.Next,
-							slots:     existing.slots | entry.slots,
-						}
+						// earlier (higher priority) path keeps its own slots
 					} else {
 						byteTransitions[class] = transInfo{
 							targetNFA: trans.Next,
